@@ -681,7 +681,7 @@ def cases(tier, rng):
                     continue
                 # args_math_mode=True inside $...$ keeps the current delimiter while ParsingStateDeltaEnterMathMode clears it;
                 # pylatexenc 3 documents no equivalent for that sub-case, so math-mode variants start in text mode
-                for pre in (('\\q', '$\\q') if mm is None else ('\\q',)):
+                for pre in (('\\q', '$\\q') if (mm is None or not any(x is True for x in mm)) else ('\\q',)):     # False entries (leave math mode) are well defined inside $...$
                     s = pre + t + ('$' if pre[0] == '$' else '')
                     for tol in (False, True):
                         yield {'tol': tol, 'ctx': 'A', 's': s, 'pos': len(pre), 'call': ['args', 'L', a, ns, mm]}
